@@ -351,6 +351,8 @@ var solvers = []solverSpec{
 	}},
 }
 
+var slowLog = os.Getenv("GOVC_SLOW") != ""
+
 var (
 	solverSem     = make(chan struct{}, 16)
 	cacheMu       sync.Mutex
@@ -580,6 +582,16 @@ func solve(query string, timeoutMs int, wantModel bool) *SolveResult {
 		cancel()
 	}
 	res.Secs = time.Since(t0).Seconds()
+	if slowLog && res.Secs > 2 {
+		g := query
+		if i := strings.LastIndex(query, "(assert (not "); i >= 0 {
+			g = query[i:]
+		}
+		if len(g) > 220 {
+			g = g[:220]
+		}
+		fmt.Fprintf(os.Stderr, "[slow] %.1fs %s %s tmo=%d %s\n", res.Secs, res.Status, res.Backend, timeoutMs, strings.TrimSpace(g))
+	}
 	keepMu.Lock()
 	kept := keptFiles[file]
 	keepMu.Unlock()
